@@ -175,8 +175,12 @@ void JunctionRef::moveAttachedConns(const Point& newPosition)
     {
         ConnEnd *connEnd = *curr;
         COLA_ASSERT(connEnd->m_conn_ref != nullptr);
+        // This is only a "the junction moved" refresh of the end: flag it as
+        // such (as ShapeRef::moveAttachedConns does) so that it does not
+        // overwrite an endpoint change the user queued in this transaction.
+        bool connPinUpdate = true;
         m_router->modifyConnector(connEnd->m_conn_ref, connEnd->endpointType(),
-                *connEnd);
+                *connEnd, connPinUpdate);
     }
     for (ShapeConnectionPinSet::iterator curr = 
             m_connection_pins.begin(); curr != m_connection_pins.end(); ++curr)
